@@ -30,7 +30,7 @@ m = {
     "hooks": {
         "guard": "none (instrumentation is a go build -overlay generated per run from /repo's working tree by bin/vinstr; /repo carries no hook code; harness side uses build tag verifrt)",
         "enable": "vcheck runs: bin/vinstr -repo /repo -rt /verif/rt -out <scratch>/overlay && go build -tags verifrt -overlay <scratch>/overlay/overlay.json ./harness/<id>",
-        "baseline_off_cmd": "cd /repo && GOFLAGS=-mod=mod GOPROXY=off go test -json -vet=off -count=1 -timeout 25m $(go list ./... | grep -v '/try$')",
+        "baseline_off_cmd": "cd /repo && GOFLAGS=-mod=mod GOPROXY=off go test -json -vet=off -count=1 -timeout 25m ./...",
         "source_commits": [],
         "add_only": True,
     },
